@@ -109,6 +109,7 @@ type Machine struct {
 	maxDepth int
 
 	actor      int
+	pools      map[*Cell][]Value // sync.Pool model: free list per pool object
 	tracked    []*Cell
 	trackedSet map[*Cell]bool
 
@@ -152,6 +153,7 @@ func (m *Machine) resetPath(prefix []int) {
 	m.uncaught = nil
 	m.failures = nil
 	m.actor = 0
+	m.pools = nil
 	m.tracked = nil
 	m.trackedSet = map[*Cell]bool{}
 	m.maxDepth = 0
